@@ -1,1 +1,66 @@
-From SR Require Import Model.Turn.
+(* C02 — Turns are scheduled by action value.
+   Only statements, [exact] and [Print Assumptions] live here. *)
+From Coq Require Import List ZArith Reals Permutation.
+From SR Require Import Base.NumOps Model.Turn Proofs.TurnProofs.
+Import ListNotations.
+
+(* every state reachable by a legal history (real-number instance of the model): no negative
+   gauge; a turn start picks a minimal action value, advances the clock by a non-negative
+   amount, zeroes the acting unit and shrinks every other gauge by speed x elapsed AV; gauge
+   changes touch one unit and never go below zero; the end of action resets the acting unit
+   only, to base gauge x (fractional) cost *)
+Theorem C02_turns_scheduled_by_action_value : C02_statement.
+Proof. exact C02_holds. Qed.
+Print Assumptions C02_turns_scheduled_by_action_value.
+
+(* the same structural clauses for the binary64 instance that is executed and compared with the
+   Go code (minimality under the hypothesis that the float comparison is a strict weak order on
+   the action values that occur, i.e. no NaN) *)
+Theorem C02_float_turn_start :
+  forall s s' id a st tot, wf FloatOps s ->
+    step FloatOps s OStart = (s', [EStart id a st tot]) ->
+    start_spec FloatOps s s' id a tot /\ st = status FloatOps s'.
+Proof. exact (start_ok FloatOps). Qed.
+Print Assumptions C02_float_turn_start.
+
+Theorem C02_float_gauge_change_touches_one_unit :
+  forall s o s' outs id, wf FloatOps s ->
+    (exists amt, o = OSetGauge id amt \/ o = OModNorm id amt \/ o = OModAV id amt) ->
+    step FloatOps s o = (s', outs) -> set_gauge_spec FloatOps s s' id outs.
+Proof. exact (set_gauge_ops_ok FloatOps). Qed.
+Print Assumptions C02_float_gauge_change_touches_one_unit.
+
+Theorem C02_float_reset_acting_unit_only :
+  forall s s' outs, wf FloatOps s -> step FloatOps s OReset = (s', outs) -> reset_spec FloatOps s s' outs.
+Proof. exact (reset_ok FloatOps). Qed.
+Print Assumptions C02_float_reset_acting_unit_only.
+
+(* documented tie order: the changed unit is put at index 0 of the remaining units (index 1
+   when a turn is active and the unit is not the head) and the order is stably re-sorted; the
+   stable insertion places an element after exactly the strictly smaller ones, i.e. in front
+   of every unit of equal action value *)
+Theorem C02_tie_order_position :
+  forall N s id amt s' old new st,
+    do_set_gauge N s id amt = (s', [EGauge id old new st]) ->
+    let start := if active s && negb (Nat.eqb (index_of (order s) id) 0) then 1%nat else 0%nat in
+    let rest := remove_id (order s) id in
+    order s' = resort N s (firstn start rest ++ mkU id new :: skipn start rest).
+Proof. exact do_set_gauge_order. Qed.
+Print Assumptions C02_tie_order_position.
+
+Theorem C02_tie_order_stable_insertion :
+  forall N key x l, exists a b, l = a ++ b /\ insert_by N key x l = a ++ x :: b /\
+    Forall (fun z => nltb N (key z) (key x) = true) a /\
+    match b with [] => True | z :: _ => nltb N (key z) (key x) = false end.
+Proof. exact insert_by_split. Qed.
+Print Assumptions C02_tie_order_stable_insertion.
+
+Theorem C02_sorted_after_resort :
+  forall N key l, keys_ok N key l -> sorted N key (sort_by N key l) /\ Permutation l (sort_by N key l).
+Proof. intros N key l H. split; [exact (sort_by_sorted N key l H)|exact (sort_by_perm N key l)]. Qed.
+Print Assumptions C02_sorted_after_resort.
+
+Theorem C02_nonvacuous :
+  legal (init ROps) [@OAdd ROps [(1%Z, 100%R); (2%Z, 90%R)]; @OStart ROps; @OModNorm ROps 2%Z (-2)%R;
+                     @OReset ROps; @OStart ROps].
+Proof. exact legal_history_exists. Qed.
